@@ -49,6 +49,86 @@ def _worker_run(item):
         return {"crash": f"{type(e).__name__}: {e}\n{traceback.format_exc()}", "item": repr(item)[:400]}
 
 
+def _child_main(prop, conn):
+    _worker_init(prop)
+    while True:
+        try:
+            item = conn.recv()
+        except EOFError:
+            break
+        if item is None:
+            break
+        conn.send(_worker_run(item))
+    conn.close()
+    os._exit(0)
+
+
+def _robust_map(prop, items, jobs, maxtasks):
+    """Unordered map over forked workers that survives a worker dying (segfault, os._exit, kill): the item it was
+    running is reported as a crash instead of blocking the whole check (multiprocessing.Pool waits forever)."""
+    from multiprocessing.connection import wait
+
+    ctx = mp.get_context("fork")
+    pending = list(reversed(items))
+    workers = {}  # conn -> [process, current item or None, tasks done]
+
+    def spawn():
+        a, b = ctx.Pipe()
+        p = ctx.Process(target=_child_main, args=(prop, b), daemon=True)
+        p.start()
+        b.close()
+        workers[a] = [p, None, 0]
+        return a
+
+    def feed(c):
+        w = workers[c]
+        if not pending:
+            try:
+                c.send(None)
+            except OSError:
+                pass
+            return
+        if w[2] >= maxtasks:
+            try:
+                c.send(None)
+            except OSError:
+                pass
+            c.close()
+            w[0].join(5)
+            del workers[c]
+            c = spawn()
+            w = workers[c]
+        w[1] = pending.pop()
+        c.send(w[1])
+
+    for _ in range(jobs):
+        feed(spawn())
+    while any(w[1] is not None for w in workers.values()):
+        for c in wait([c for c, w in workers.items() if w[1] is not None]):
+            w = workers[c]
+            try:
+                r = c.recv()
+            except (EOFError, OSError):
+                w[0].join(5)
+                yield {"crash": f"worker process died (exit code {w[0].exitcode}) while running this item", "item": repr(w[1])[:400]}
+                c.close()
+                del workers[c]
+                feed(spawn())
+                continue
+            w[1] = None
+            w[2] += 1
+            yield r
+            feed(c)
+    for c, w in list(workers.items()):
+        try:
+            c.send(None)
+        except OSError:
+            pass
+        w[0].join(5)
+        if w[0].is_alive():
+            w[0].kill()
+
+
 def load_known(prop):
     out = []
     if os.path.exists(KNOWN):
@@ -163,13 +243,11 @@ def main(argv=None):
                 merge(agg, r)
         env.restore_stdout()
     else:
-        ctx = mp.get_context("fork")
-        with ctx.Pool(jobs, initializer=_worker_init, initargs=(prop,), maxtasksperchild=getattr(mod, "MAXTASKS", 200)) as pool:
-            for r in pool.imap_unordered(_worker_run, items, chunksize=getattr(mod, "CHUNKSIZE", 1)):
-                if "crash" in r:
-                    crashes.append(r)
-                else:
-                    merge(agg, r)
+        for r in _robust_map(prop, items, jobs, getattr(mod, "MAXTASKS", 200)):
+            if "crash" in r:
+                crashes.append(r)
+            else:
+                merge(agg, r)
     wall = time.time() - t0
 
     if os.environ.get("BSV_DUMP"):
